@@ -1,4 +1,5 @@
 import SedpackProofs.PoolThm
+import SedpackProofs.PoolReuse
 /-!
 # C13 — The lazy thread pool is correct under every thread interleaving
 
@@ -113,6 +114,42 @@ theorem C13_no_duplicates (c : Cfg) (g : Good c) (s : St) (h : Reach c s) (hc : 
   rw [htk, msgIdx_pref] at hix
   split at hix <;> omega
 
+/-! ## Re-use of the pool object
+
+A pool object over its life time (`Multi`): the current pass plus earlier passes whose worker threads
+may still be draining their own, forgotten queues.  `newPass` (`imap_unordered` on a pool whose
+previous pass has gone through `finish_and_reset`) is enabled exactly then. -/
+
+/-- **The pool can be re-used.** In every reachable state of the pool object — any number of passes,
+earlier ones abandoned at any point, with any failing inputs, their workers interleaved arbitrarily
+with the current pass — the current pass is a reachable state of a *fresh* single pass, and every
+earlier pass is a reachable single-pass state that has been through `finish_and_reset`. -/
+theorem C13_reuse_is_fresh_pass (cs : Nat → Cfg) (m : Multi) (h : MReach cs m) :
+    Reach (cs m.past.length) m.cur ∧
+    ∀ g (hg : g < m.past.length), Reach (cs g) m.past[g] ∧ ∃ why, m.past[g].ph = .fin why :=
+  ⟨(minv_reach cs m h).cur, (minv_reach cs m h).past⟩
+
+/-- Hence every pass of a re-used pool is exactly-once, whatever earlier passes left behind. -/
+theorem C13_reuse_exactly_once (cs : Nat → Cfg) (hg : ∀ g, Good (cs g)) (m : Multi) (h : MReach cs m)
+    (hend : normalEnd m.cur) : ∃ n, (cs m.past.length).n = some n ∧ m.cur.out.Perm (List.range n) :=
+  C13_exactly_once _ (hg _) _ (C13_reuse_is_fresh_pass cs m h).1 hend
+
+/-- … and the worker threads of every earlier pass terminate: their remaining schedule is finite and
+ends with all of them returned (also for an infinite input abandoned half-way). -/
+theorem C13_reuse_old_workers_drain (cs : Nat → Cfg) (hg : ∀ g, Good (cs g)) (m : Multi) (h : MReach cs m)
+    (g : Nat) (hlt : g < m.past.length) (tr : List Lbl) (s' : St) (hacc : accepts (cs g) m.past[g] tr = some s') :
+    tr.length ≤ mu (cs g) 0 m.past[g] ∧ ((∀ l, step (cs g) s' l = none) → terminal s') := by
+  obtain ⟨hr, why, hph⟩ := (C13_reuse_is_fresh_pass cs m h).2 g hlt
+  exact C13_early_exit_drains (cs g) (hg g) _ s' hr (by rw [hph]; rfl) tr hacc
+
+/-- a new pass cannot start while the previous one has not been reset (the code's `assert`s) -/
+theorem C13_newPass_needs_reset (cs : Nat → Cfg) (m m' : Multi) (h : mstep cs m .newPass = some m') :
+    ∃ why, m.cur.ph = .fin why := by
+  simp only [mstep] at h
+  split at h
+  · rename_i why hph; exact ⟨why, hph⟩
+  · cases h
+
 /-! ## The pinned code (a worker dies with the exception): a kernel-checked stuck state (D2) -/
 
 def stuckCfg : Cfg := { T := 1, P := 4, n := some 1, fails := fun _ => true, forward := false }
@@ -137,5 +174,16 @@ example : (accepts demoCfg (init demoCfg)
     [.cPut, .cPut, .cPut, .cPut, .cPut, .cPut, .wGet 0, .wGet 1, .wPut 1, .wPut 0, .cGet, .cPutNext, .wGet 0, .wPut 0,
      .cGet, .cPutNext, .cGet, .cPutNext, .wGet 1, .wPut 1, .wGet 0, .wPut 0, .cGet, .cGet, .cFinish]).map
       (fun s => (s.out, s.ph)) = some ([1, 0, 2], .resetting 0 0) := by decide
+
+/-- Non-vacuity of the re-use theorems: pass 0 (infinite input) is abandoned after one result, pass 1
+starts while worker 1 of pass 0 has not yet seen its sentinel, and both make progress interleaved. -/
+def reuseCfgs : Nat → Cfg
+  | 0 => { T := 2, P := 6, n := none, fails := fun _ => false, forward := true }
+  | _ => { T := 2, P := 6, n := some 1, fails := fun _ => false, forward := true }
+example : ((maccepts reuseCfgs (minit reuseCfgs)
+    [.cur .cPut, .cur .cPut, .cur .cPut, .cur .cPut, .cur .cPut, .cur .cPut, .cur (.wGet 0), .cur (.wPut 0), .cur .cGet, .cur .cPutNext,
+     .cur .cAbandon, .cur .cReset, .cur .cReset, .cur .cReset, .newPass,
+     .cur .cPut, .old 0 (.wGet 1), .cur .cPut, .old 0 (.wPut 1), .cur (.wGet 0), .old 0 (.wGet 0)]).map
+      (fun m => (m.past.length, m.cur.p, (m.past.map (·.q))))) = some (1, 2, [3]) := by decide
 
 end Sedpack.Pool
